@@ -22,6 +22,8 @@ const (
 	SRefO // *object
 	SUnk
 	SPerm // (Array Int Int), a ghost permutation
+	SOrd  // (Array Int Str), a ghost enumeration of map keys
+	SOrdInv // (Array Str Int), its inverse
 )
 
 func (s Sort) smt() string {
@@ -51,6 +53,7 @@ const (
 	KMap
 	KArrPtr
 	KOpaque
+	KIter // map iterator: T = map id, Loc.Cell = position cell, Arr = ord array, Off = inverse array, Len = number of keys
 )
 
 type Loc struct {
